@@ -125,6 +125,14 @@ Theorem C15_sys_tags_concat_generic s plats abis : interpreter_name (impl_name s
 Proof. exact (sys_tags_generic s plats abis). Qed.
 Print Assumptions C15_sys_tags_concat_generic.
 
+(* 13. _generic_abi on the CPython (non-Windows) form of EXT_SUFFIX: ".cpython-<X>-<platform>.<ext>" gives the single ABI "cp<X>"
+       (X free of '.', '-', ' '; the platform part free of '.'); the other documented forms are checked by computation below *)
+Theorem C15_generic_abi_cpython X plat ext c v :
+  free_of 46 X -> free_of 45 X -> free_of 32 X -> free_of 46 plat ->
+  generic_abi (Some ([46] ++ s_cpython ++ [45] ++ X ++ [45] ++ plat ++ [46] ++ ext)) c v = GOk [s_cp ++ X].
+Proof. apply generic_abi_cpython. Qed.
+Print Assumptions C15_generic_abi_cpython.
+
 (* non-vacuity: cpython_tags((3, 4), ["cp34m", "abi3"], ["p", "q"]) has the stated shape (11 blocks... here 5), satisfies the
    hypotheses of 9., and the compatible sequence for interpreter cp34 satisfies its side conditions *)
 Example C15_nonvacuous :
@@ -144,3 +152,16 @@ Proof.
   - intros [E|[E|[]]]; discriminate.
   - intros x E. inversion E; subst. vm_compute. intros H. repeat destruct H as [H|H]; try discriminate; auto.
 Qed.
+
+(* the EXT_SUFFIX forms documented in _generic_abi (tests by computation; the general behaviour is covered by the correspondence run):
+   .cpython-310-x86_64-linux-gnu.so => cp310, .cpython-310-darwin.so => cp310, .cp310-win_amd64.pyd => cp310, .pypy38-pp73-x86_64-linux-gnu.so => pypy38_pp73, .graalpy-38-native-x86_64-darwin.dylib => graalpy_38_native *)
+Example C15_generic_abi_documented_forms :
+  let c := {| py_debug := None; gil_disabled := None; with_pymalloc := None; unicode_size := None; has_refcount := false; has_ext := false; wide_unicode := true |} in
+  generic_abi (Some [46;99;112;121;116;104;111;110;45;51;49;48;45;120;56;54;95;54;52;45;108;105;110;117;120;45;103;110;117;46;115;111]) c (3, [10])%nat = GOk [[99;112;51;49;48]] /\
+  generic_abi (Some [46;99;112;121;116;104;111;110;45;51;49;48;45;100;97;114;119;105;110;46;115;111]) c (3, [10])%nat = GOk [[99;112;51;49;48]] /\
+  generic_abi (Some [46;99;112;51;49;48;45;119;105;110;95;97;109;100;54;52;46;112;121;100]) c (3, [10])%nat = GOk [[99;112;51;49;48]] /\
+  generic_abi (Some [46;112;121;112;121;51;56;45;112;112;55;51;45;120;56;54;95;54;52;45;108;105;110;117;120;45;103;110;117;46;115;111]) c (3, [10])%nat = GOk [[112;121;112;121;51;56;95;112;112;55;51]] /\
+  generic_abi (Some [46;103;114;97;97;108;112;121;45;51;56;45;110;97;116;105;118;101;45;120;56;54;95;54;52;45;100;97;114;119;105;110;46;100;121;108;105;98]) c (3, [10])%nat = GOk [[103;114;97;97;108;112;121;95;51;56;95;110;97;116;105;118;101]] /\
+  generic_abi (Some [46;112;121;100]) c (3, [7])%nat = GOk [[99;112;51;55;109]] /\
+  generic_abi None c (3, [7])%nat = GSystemError.
+Proof. cbv zeta. repeat split; vm_compute; reflexivity. Qed.
